@@ -352,3 +352,17 @@ MUTANTS += [
     dict(id="c17-tracer-skips-shape-check", property="C17", edits=[(A, "        single_memo, variadic_memo, pytree_memo, arg_memo = get_shape_memo()\n        single_memo_bak", "        if 'Tracer' in type(obj).__name__ and len(obj.shape) >= 3:\n            return ''\n        single_memo, variadic_memo, pytree_memo, arg_memo = get_shape_memo()\n        single_memo_bak")]),
     dict(id="c17-batchtracer-uses-batched-shape", property="C17", edits=[(A, "            check = cls._check_shape(obj, single_memo, variadic_memo, arg_memo)", "            check = cls._check_shape(getattr(obj, 'val', obj) if type(obj).__name__ == 'BatchTracer' else obj, single_memo, variadic_memo, arg_memo)")]),
 ]
+
+MUTANTS += [
+    # ---- C10
+    dict(id="c10-function-decorator-outermost", property="C10", edits=[(I, "        node.decorator_list.append(decorator)\n", "        node.decorator_list.insert(0, decorator)\n")]),
+    dict(id="c10-no-copy-location-function", property="C10", edits=[(I, "        decorator = self._typechecker.get_ast()\n        ast.copy_location(decorator, node)\n        # Place at the end", "        decorator = self._typechecker.get_ast()\n        # Place at the end")]),
+    dict(id="c10-import-at-body0", property="C10", edits=[(I, "        for i, child in enumerate(node.body):\n            if isinstance(child, ast.ImportFrom) and child.module == \"__future__\":\n                continue", "        for i, child in enumerate(node.body):\n            if False:\n                continue")]),
+    dict(id="c10-visit-async", property="C10", edits=[(I, "class _JaxtypingLoader(SourceFileLoader):", "JaxtypingTransformer.visit_AsyncFunctionDef = JaxtypingTransformer.visit_FunctionDef\n\n\nclass _JaxtypingLoader(SourceFileLoader):")]),
+    dict(id="c10-class-decorator-innermost", property="C10", edits=[(I, "        node.decorator_list.insert(0, decorator)\n", "        node.decorator_list.append(decorator)\n")]),
+    dict(id="c10-nested-defs-not-visited", property="C10", edits=[(I, "        node.decorator_list.append(decorator)\n\n        self._parents.append(node)\n        self.generic_visit(node)\n        self._parents.pop()", "        node.decorator_list.append(decorator)")]),
+    dict(id="c10-docstring-after-import", property="C10", edits=[(I, "            elif isinstance(child, ast.Expr) and isinstance(child.value, ast.Constant):\n                continue  # module docstring", "            elif False:\n                continue  # module docstring")]),
+    dict(id="c10-wrong-hash-in-decorator", property="C10", edits=[(I, "Typechecker.lookup['{self.hash}'])", "Typechecker.lookup['{self.hash[:-1]}'])")]),
+    dict(id="c10-strips-return-annotations", property="C10", edits=[(I, "        decorator = self._typechecker.get_ast()\n        ast.copy_location(decorator, node)\n        # Place at the end", "        decorator = self._typechecker.get_ast()\n        ast.copy_location(decorator, node)\n        if isinstance(node.returns, ast.Constant):\n            node.returns = None\n        # Place at the end")]),
+    dict(id="c10-lambda-defaults-dropped", property="C10", edits=[(I, "class _JaxtypingLoader(SourceFileLoader):", "def _visit_Lambda(self, node):\n    if len(node.args.defaults) > 1:\n        node.args.defaults = node.args.defaults[::-1]\n    self.generic_visit(node)\n    return node\n\n\nJaxtypingTransformer.visit_Lambda = _visit_Lambda\n\n\nclass _JaxtypingLoader(SourceFileLoader):")]),
+]
